@@ -105,7 +105,7 @@ class Run:
         for vc in eng.vcs:
             f = vc.oid.split('/')[0]
             if '/post:' in vc.oid or '/raises:' in vc.oid:
-                exits.setdefault(f, {}).setdefault(vc.path, vc)
+                exits.setdefault(f, {}).setdefault((vc.path, '/raises:' in vc.oid), vc)
         cov_vcs = [(f, vc) for f, d in exits.items() for vc in list(d.values())[:6]]
         cres = solve.cover([vc for f, vc in cov_vcs], axioms, pins or None, budget_s=4, nproc=self.nproc)
         reach = {}
@@ -153,6 +153,15 @@ class Run:
         for f, why in eng.unsupported:
             self.undecided.append({'oid': unit.name + '::' + f, 'why': 'outside supported subset / contract does not bind: ' + why})
         return out, eng
+
+    def static_obligations(self, unit_name, results, by='dataflow'):
+        """obligations decided without a solver (race-freedom of prange loops, call-site data flow)"""
+        for oid, ok, detail in results:
+            full = unit_name + '::' + oid
+            self.obls[full] = {'status': 'discharged' if ok else 'sat', 'by': by, 'secs': 0.0, 'paths': 1}
+            if not ok:
+                self.failed.append({'oid': full, 'unit': unit_name, 'status': 'sat', 'model': None, 'pin': None, 'tried': [(by, 'refuted', 0)],
+                                    'goal': '; '.join(detail)[:600], 'note': 'static obligation refuted', 'line': None, 'error': None})
 
     def canary_check(self, unit):
         """in-memory rewrites of the real source must NOT verify (guards against an unsound engine)"""
